@@ -30,9 +30,8 @@ TRUSTED = [
     "equality 'up to floating-point rounding' between scorer and guesser products is measured (<= 1e-12 relative), not proved",
 ]
 ASSUMES = [
-    "C13_promise_Q_partial: exact rational arithmetic; non-empty string; every character of the string has a one-to-one case "
-    "mapping (c_case_ok: an upper-case character is upper(lower(c)), any other is its own lower()) - false for e.g. U+1E9E, "
-    "U+212A, U+03F4, U+01C5 (known-finding class R16)",
+    "C13_promise_Q_partial: exact rational arithmetic; non-empty string (no hypothesis on the characters any more: the scorer's "
+    "rebuild check is the mask round trip with the interpreter's upper() as oracle; side condition C13_source_rebuild_check)",
     "the guesser's side of the theorem is the relation c_generates over the tables the scorer loaded; its agreement with the real "
     "PcfgGrammar enumeration is a correspondence obligation of every run",
 ]
